@@ -5,6 +5,18 @@ use crate::model::*;
 use std::time::{Duration, Instant};
 
 pub fn reproduces(run: &Run, opts: &ExecOpts, property: &str, class: &str) -> Option<Violation> {
+    if class.starts_with("module-") {
+        // Node leg of I-C04: the emitted modules of this run are imported by Node
+        let mut o = opts.clone();
+        o.collect_codes = true;
+        o.code_dedup = false;
+        let out = execute(run, &o);
+        let items: Vec<&CodeItem> = out.codes.iter().collect();
+        return match crate::coord::node_leg(&items, "min") {
+            Ok(bad) => bad.into_iter().find(|(_, c, _)| c == class).map(|(h, c, d)| Violation { property: "C04".into(), class: c, detail: serde_json::json!({"module_hash": format!("{:016x}", h), "node": d}), op_index: run.ops.len().saturating_sub(1) }),
+            Err(_) => None,
+        };
+    }
     let out = execute(run, opts);
     out.violations.into_iter().find(|v| v.property == property && v.class == class)
 }
